@@ -1,5 +1,6 @@
 #![allow(dead_code, clippy::all)]
 mod c08;
+mod c16;
 mod scratch;
 
 fn main() {
@@ -13,6 +14,7 @@ fn main() {
     let replay = args.iter().position(|a| a == "--replay").and_then(|i| args.get(i + 1)).cloned();
     let code = match id {
         "C08" => c08::run(tier, replay),
+        "C16" => c16::run(tier, replay),
         _ => {
             eprintln!("usage: gencheck C07|C08|C09|C10|C16|C17|C18|C19 quick|thorough");
             2
